@@ -122,17 +122,20 @@ package jet
 //@   ensures [context-is-dot] result == r.context
 
 //@ func (*scope).getBlock
-//@   props C08 C12
+//@   props C08 C12 C09
 //@   requires st != nil
 //@   nopanic
 //@   loop 0 invariant st != nil
 //@   loop 0 invariant [at-the-innermost-scope] st == old(st) ==> has == has(st.blocks, name) && (has ==> block == st.blocks[name])
 //@   loop 0 invariant [moved-on-only-when-absent] st != old(st) ==> !has(old(st.blocks), name) && old(st.parent) != nil
 //@   loop 0 invariant [at-the-second-scope] st != old(st) && st == old(st.parent) ==> has == has(st.blocks, name) && (has ==> block == st.blocks[name])
-//@   loop 0 invariant [beyond-the-second-scope] st != old(st) && st != old(st.parent) ==> !has(old(st.parent.blocks), name)
+//@   loop 0 invariant [beyond-the-second-scope] st != old(st) && st != old(st.parent) ==> !has(old(st.parent.blocks), name) && old(st.parent.parent) != nil
+//@   loop 0 invariant [at-the-third-scope] st != old(st) && st != old(st.parent) && st == old(st.parent.parent) ==> has == has(st.blocks, name) && (has ==> block == st.blocks[name])
+//@   loop 0 invariant [beyond-the-third-scope] st != old(st) && st != old(st.parent) && st != old(st.parent.parent) ==> !has(old(st.parent.parent.blocks), name)
 //@   ensures [innermost-scope-wins] has(old(st.blocks), name) ==> has == true && block == old(st.blocks)[name]
 //@   ensures [second-scope-next] !has(old(st.blocks), name) && old(st.parent) != nil && has(old(st.parent.blocks), name) ==> has == true && block == old(st.parent.blocks)[name]
 //@   ensures [no-scope-no-block] !has(old(st.blocks), name) && old(st.parent) == nil ==> has == false
+//@   ensures [third-scope-after-that] {C08,C09} !has(old(st.blocks), name) && old(st.parent) != nil && !has(old(st.parent.blocks), name) && old(st.parent.parent) != nil && has(old(st.parent.parent.blocks), name) ==> has == true && block == old(st.parent.parent.blocks)[name]
 //@   assumes [block-tables-hold-well-formed-blocks] has ==> block != nil && WF(iface(block, "*BlockNode"))
 
 //@ func (*Runtime).setValue
@@ -168,7 +171,9 @@ package jet
 //@   modifies mapsof VarMap, type scope.variables
 //@   nopanic
 //@   loop 0 invariant sc != nil && (state.scope.parent == nil || state.scope.parent.variables == nil ==> sc == state.scope)
+//@   loop 0 invariant [walk-goes-outwards-through-scopes-with-variables] sc == state.scope || (state.scope.parent != nil && state.scope.parent.variables != nil && (sc == state.scope.parent || (state.scope.parent.parent != nil && state.scope.parent.parent.variables != nil)))
 //@   ensures [letglobal-single-scope] old(state.scope.parent) == nil || old(state.scope.parent.variables) == nil ==> has(state.scope.variables, name)
+//@   ensures [letglobal-binds-in-the-outermost-scope-with-variables] {C18} old(state.scope.parent) != nil && old(state.scope.parent.variables) != nil && (old(state.scope.parent.parent) == nil || old(state.scope.parent.parent.variables) == nil) ==> has(state.scope.parent.variables, name)
 
 //@ func (*Runtime).resolve
 //@   props C07 C18 C17 C11 C12
@@ -220,10 +225,16 @@ package jet
 //@   props C10 C07 C12
 //@ func isUint
 //@   props C10 C07 C12
+//@   nopanic
+//@   ensures [kind-class] result == KUint(kind)
 //@ func isInt
 //@   props C10 C07 C12
+//@   nopanic
+//@   ensures [kind-class] result == KInt(kind)
 //@ func isFloat
 //@   props C10 C07 C12
+//@   nopanic
+//@   ensures [kind-class] result == KFloat(kind)
 //@ func checkEquality
 //@   props C10 C07 C12
 //@   loop 0 invariant 0 <= i && vlen == RvLen(v1) && vlen == RvLen(v2)
@@ -231,7 +242,8 @@ package jet
 //@   loop 2 invariant 0 <= i && n == RvNumField(v1)
 //@   loop 3 invariant true
 //@ func isTrue
-//@   props C10 C07 C12
+//@   props C10 C07 C12 C05 C04
+//@   ensures [truthy-is-valid-and-not-the-zero-value] {C05} result == (RvValid(v) && !RvIsZero(v))
 //@ func canNumber
 //@   props C10 C07 C12
 //@ func castInt64
@@ -258,6 +270,8 @@ package jet
 //@   modifies mapsof map[reflect.Type]map[string][]int, ghost Held
 //@   ensures [lock-released] Held == old(Held)
 //@   loop 0 invariant true
+//@   callsite fieldByIndex 0 requires [field-paths-come-from-the-cache-of-the-values-type] {C06} has(cachedStructsFieldIndex, RvTypeOf(v)) && has(cachedStructsFieldIndex[RvTypeOf(v)], caller.key) && index == cachedStructsFieldIndex[RvTypeOf(v)][caller.key]
+//@   callsite buildCache 0 requires [the-cache-is-built-for-the-values-type] {C06} typ == lastret("(reflect.Value).Type", 0) && fresh(cache) && len(parent) == 0
 //@ func fieldByIndex
 //@   props C06 C12 C10 C11
 //@   loop 0 invariant true
@@ -278,6 +292,7 @@ package jet
 //@   props C07 C13 C10 C12
 //@   requires RtOK(st) && node != nil && WF(iface(node, "*NumericComparativeExprNode"))
 //@   modifies @Interp
+//@   check [a-float-operand-makes-the-comparison-floating-point] {C04} KFloat(RvKind(lastret("(*Runtime).evalPrimaryExpressionGroup", 0))) ==> ncalls("toInt") == 0 && ncalls("toUint") == 0
 //@   ensures [balanced] SameS(st)
 //@   anypanic
 //@   exsures [runtime-valid-on-panic] RtX(st)
@@ -299,6 +314,7 @@ package jet
 //@   props C07 C13 C10 C12
 //@   requires RtOK(st) && node != nil && WF(iface(node, "*MultiplicativeExprNode"))
 //@   modifies @Interp
+//@   check [a-float-operand-makes-the-operation-floating-point] {C04} KFloat(RvKind(lastret("(*Runtime).evalPrimaryExpressionGroup", 0))) && node.binaryExprNode.Operator.typ != itemMod ==> ncalls("toInt") == 0 && ncalls("toUint") == 0
 //@   ensures [balanced] SameS(st)
 //@   anypanic
 //@   exsures [runtime-valid-on-panic] RtX(st)
@@ -306,6 +322,7 @@ package jet
 //@   props C07 C13 C10 C12
 //@   requires RtOK(st) && node != nil && WF(iface(node, "*AdditiveExprNode"))
 //@   modifies @Interp
+//@   check [a-float-operand-makes-the-operation-floating-point] {C04} KFloat(RvKind(lastret("(*Runtime).evalPrimaryExpressionGroup", 0))) ==> ncalls("toInt") == 0 && ncalls("toUint") == 0
 //@   ensures [balanced] SameS(st)
 //@   anypanic
 //@   exsures [runtime-valid-on-panic] RtX(st)
@@ -441,7 +458,7 @@ package jet
 //@   nopanic
 //@   ensures [piped-value-counts-as-first-argument] result == len(a.args.Exprs) + ite(Implicit(a), 1, 0)
 //@ func (*Arguments).IsSet
-//@   props C17 C14
+//@   props C17 C14 C18
 //@   requires a != nil && RtOK(a.runtime) && WFArgs(a.args)
 //@   modifies @Interp
 //@   nopanic
@@ -525,13 +542,13 @@ package jet
 //@   loop 1 invariant [ctx] context == old(st.context) && (valVarSlot >= 0 ==> st.context == context)
 //@   loop 1 invariant [scope] ite(isLet, st.scope.parent != nil && ite(inNewScope, st.scope.parent.parent == old(st.scope), st.scope.parent == old(st.scope)), ite(inNewScope, st.scope.parent == old(st.scope), st.scope == old(st.scope)))
 //@   loop 0 monotone [return-value-kept] {C09} RvValid(returnValue)
-//@   loop 0 step [if-renders-exactly-one-branch] {C05} NTF(list.Nodes[prev(i)]) == NodeIf ==> ite(lastret("isTrue", 0), visits("(*Runtime).executeList", 0) == prev(visits("(*Runtime).executeList", 0)) + 1 && visits("(*Runtime).executeList", 1) == prev(visits("(*Runtime).executeList", 1)), visits("(*Runtime).executeList", 0) == prev(visits("(*Runtime).executeList", 0)) && visits("(*Runtime).executeList", 1) == prev(visits("(*Runtime).executeList", 1)) + ite(as(list.Nodes[prev(i)], "*IfNode").ElseList != nil, 1, 0))
+//@   loop 0 step [if-renders-exactly-one-branch] {C05,C03} NTF(list.Nodes[prev(i)]) == NodeIf ==> ite(lastret("isTrue", 0), visits("(*Runtime).executeList", 0) == prev(visits("(*Runtime).executeList", 0)) + 1 && visits("(*Runtime).executeList", 1) == prev(visits("(*Runtime).executeList", 1)), visits("(*Runtime).executeList", 0) == prev(visits("(*Runtime).executeList", 0)) && visits("(*Runtime).executeList", 1) == prev(visits("(*Runtime).executeList", 1)) + ite(as(list.Nodes[prev(i)], "*IfNode").ElseList != nil, 1, 0))
 //@   loop 1 step [range-body-once-per-element] {C05} visits("(*Runtime).executeList", 2) == prev(visits("(*Runtime).executeList", 2)) + 1 && visits("(Ranger).Range", 1) == prev(visits("(Ranger).Range", 1)) + 1
 //@   loop 1 invariant [range-slots] {C05} ite(!isSet, valVarSlot == -1, ite(len(node.Set.Left) > 1, keyVarSlot == 0 && valVarSlot == 1 && lastret("(Ranger).ProvidesIndex", 0), ite(lastret("(Ranger).ProvidesIndex", 0), keyVarSlot == 0 && valVarSlot == -1, keyVarSlot == -1 && valVarSlot == 0)))
 //@   callsite (*Runtime).executeList 0 requires [if-branch-taken-when-truthy] {C05} lastret("isTrue", 0) && list == caller.node.List
-//@   callsite (*Runtime).executeList 1 requires [else-branch-taken-when-falsy] {C05} !lastret("isTrue", 0) && list == caller.node.ElseList
+//@   callsite (*Runtime).executeList 1 requires [else-branch-taken-when-falsy] {C05,C03} !lastret("isTrue", 0) && list == caller.node.ElseList
 //@   callsite (*Runtime).executeList 2 requires [range-binds-dot-only-without-value-variable] {C05} list == caller.node.List && ite(caller.valVarSlot < 0, st.context == caller.rangeValue, st.context == caller.context)
-//@   callsite (*Runtime).executeList 3 requires [range-else-iff-no-elements] {C05} lastret("(Ranger).Range", 2) && list == caller.node.ElseList
+//@   callsite (*Runtime).executeList 3 requires [range-else-iff-no-elements] {C05,C03} lastret("(Ranger).Range", 2) && list == caller.node.ElseList
 //@   anypanic
 //@   exsures [runtime-valid-on-panic] RtX(st)
 
@@ -561,14 +578,16 @@ package jet
 //@   exsures [runtime-valid-on-panic] RtX(st)
 
 //@ func (*Runtime).executeInclude
-//@   props C09 C07 C13 C12
+//@   props C09 C07 C13 C12 C15
 //@   requires RtOK(st) && node != nil && WF(iface(node, "*IncludeNode"))
 //@   modifies @Interp
 //@   loop 0 invariant RtOK(st) && st.scope.parent == old(st.scope) && st.content == old(st.content) && st.escapeeWriter.Writer == old(st.escapeeWriter.Writer) && deferred(0)
 //@   loop 0 invariant [root-walk] t != nil && TplOK(t) && RootOf(t) == RootOf(lastret("(*Set).getSiblingTemplate", 0)) && Root == t.Root && st.scope.blocks == lastret("(*Set).getSiblingTemplate", 0).processedBlocks
 //@   loop 0 invariant [include-context] ite(node.Context != nil, deferred(1) && context == old(st.context), st.context == old(st.context))
 //@   ensures [include-leaks-nothing] SameS(st)
-//@   callsite (*Set).getSiblingTemplate 0 requires [include-resolves-against-includer] siblingPath == caller.node.TemplatePath && cacheAfterParsing
+//@   callsite (*Set).getSiblingTemplate 0 requires [include-resolves-against-includer] {C15,C09} siblingPath == caller.node.TemplatePath && cacheAfterParsing
+//@   callsite (*Set).getSiblingTemplate 0 requires [include-resolves-the-name-as-written] {C15,C09} templatePath == lastret("(reflect.Value).String", 0)
+//@   callsite (*Set).getSiblingTemplate count 1
 //@   callsite (*Runtime).executeList 0 requires [include-renders-root-with-its-blocks] list == RootOf(lastret("(*Set).getSiblingTemplate", 0)).Root && st.scope.blocks == lastret("(*Set).getSiblingTemplate", 0).processedBlocks && st.scope.parent == old(st.scope) && (caller.node.Context == nil ==> st.context == old(st.context))
 //@   callsite (*Runtime).executeList count 1
 //@   anypanic
@@ -696,6 +715,7 @@ package jet
 //@   nocrash
 //@   modifies *
 //@   loop 0 invariant s != nil
+//@   loop 0 entry [the-default-escaper-is-html-escape] {C01} s.escapee == template.HTMLEscape
 
 //@ frame {C01} stores Runtime.escapeeWriter only-in init$1
 //@ frame {C01} stores escapeeWriter.Writer only-in (*Template).Execute, (*Runtime).executeTry, init#1$4
@@ -781,3 +801,8 @@ package jet
 //@   exsures RtX(a.runtime)
 //@   loop 0 invariant RtOK(a.runtime) && 0 <= i && len(arr) == lastret("(*Arguments).NumOfArguments", 0) && fresh(arr)
 //@   callsite (*Arguments).Get 0 requires [slice-elements-are-the-arguments-in-order] {C14} argumentIndex == caller.i
+
+// Executing never writes through reflect into data reachable from parsed templates: the only reflect stores are the
+// explicit assignment forms (C10).
+//@ frame {C10} calls (reflect.Value).Set only-in (*Runtime).executeSet
+//@ frame {C10} calls (reflect.Value).SetMapIndex only-in (*Runtime).executeSet, init$2
